@@ -195,7 +195,10 @@ type rec struct {
 	got [][]byte
 }
 
-type devMod struct{ rec *rec }
+type devMod struct {
+	rec   *rec
+	shape int // 0: one reply; 1: half a reply, yield, the other half; 2: yield, reply, yield
+}
 
 func (d *devMod) Transition(bool) error { return nil }
 func (d *devMod) Receive(ctx context.Context, name string, body io.Reader, respond func(string) io.Writer, yield func()) error {
@@ -204,6 +207,20 @@ func (d *devMod) Receive(ctx context.Context, name string, body io.Reader, respo
 		return err
 	}
 	d.rec.got = append(d.rec.got, append([]byte(name+"="), b...))
+	switch d.shape {
+	case 1:
+		if _, err = respond("echo").Write(b[:len(b)/2]); err != nil {
+			return err
+		}
+		yield()
+		_, err = respond("echo").Write(b[len(b)/2:])
+		return err
+	case 2:
+		yield()
+		_, err = respond("echo").Write(b)
+		yield()
+		return err
+	}
 	_, err = respond("echo").Write(b)
 	return err
 }
@@ -213,6 +230,9 @@ type ownMod struct {
 	payload []byte
 	state   int
 	echo    *[]byte
+	// doneWithData: the module reports completion in the same call that writes its last message, so the owner's
+	// final TO2.OwnerServiceInfo (IsDone) still carries service info the device module answers
+	doneWithData bool
 }
 
 func (m *ownMod) HandleInfo(ctx context.Context, name string, body io.Reader) error {
@@ -233,7 +253,7 @@ func (m *ownMod) ProduceInfo(ctx context.Context, p *serviceinfo.Producer) (bool
 		b, _ := cbor.Marshal(true)
 		return false, false, p.WriteChunk("active", b)
 	case 2:
-		return false, false, p.WriteChunk("secret", m.payload)
+		return false, m.doneWithData, p.WriteChunk("secret", m.payload)
 	}
 	return false, true, nil
 }
@@ -250,6 +270,9 @@ type world struct {
 	w       *lab.World
 	ctx     context.Context
 	parties []*party
+	// shapes of the module conversation (pipeline scenarios)
+	devShape     int
+	doneWithData bool
 }
 
 var kindsFor = map[string]keys.Kind{}
@@ -285,7 +308,7 @@ func newWorld(n int, algs []string, doDI bool) *world {
 		if echo == nil {
 			echo = new([]byte)
 		}
-		return []lab.NamedModule{{Name: "m", Mod: &ownMod{payload: payloadFor(guid), echo: echo}}}
+		return []lab.NamedModule{{Name: "m", Mod: &ownMod{payload: payloadFor(guid), echo: echo, doneWithData: wd.doneWithData}}}
 	}
 	if doDI {
 		for _, p := range wd.parties {
@@ -340,7 +363,7 @@ func (f *failAt) Send(ctx context.Context, t uint8, msg any, sess kex.Session) (
 func (wd *world) to2(p *party, suite kex.Suite, cipher kex.CipherSuiteID, failIdx int) error {
 	cfg := p.dev.TO2Config(suite, cipher)
 	p.guid0 = p.dev.Cred.GUID
-	cfg.DeviceModules = map[string]serviceinfo.DeviceModule{"m": &devMod{rec: p.rec}}
+	cfg.DeviceModules = map[string]serviceinfo.DeviceModule{"m": &devMod{rec: p.rec, shape: wd.devShape}}
 	var tr fdo.Transport = lab.NewWire(wd.w.Owner).Transport()
 	if failIdx > 0 {
 		tr = &failAt{inner: tr, at: failIdx}
@@ -669,6 +692,56 @@ func scenarios(thorough bool) []scenario {
 				return vres, v, fmt.Sprintf("err=%v", err != nil)
 			}})
 	}
+	// (P) shapes of the module conversation on one device: the module yields between and around its replies, and the
+	// owner's final message (IsDone) still carries service info that the device module answers. No schedule may
+	// deadlock, and the secret arrives exactly once.
+	for _, sh := range []struct {
+		shape int
+		done  bool
+	}{{1, false}, {1, true}, {2, false}, {2, true}, {0, true}} {
+		var wd *world
+		out = append(out, scenario{Name: fmt.Sprintf("to2 pipeline: device module shape %d, owner done with its last data=%v", sh.shape, sh.done), Bound: 1, Delay: true,
+			run: func(choose vsync.Chooser) (vsync.Result, [][2]string, string) {
+				if wd == nil {
+					wd = newWorld(1, []string{"ec256"}, true)
+					wd.devShape, wd.doneWithData = sh.shape, sh.done
+				}
+				p := wd.parties[0]
+				var err error
+				vsync.StmtYields = false
+				vres := vsync.Run(choose, 400000, func() {
+					s, c := suiteFor(p.dev.Kind)
+					err = wd.to2(p, s, c, 0)
+				})
+				vsync.StmtYields = true
+				var v [][2]string
+				clean := len(vres.Panics) == 0 && !vres.Deadlock && !vres.Livelock
+				if clean {
+					if err != nil {
+						v = append(v, [2]string{"pipeline-to2-fails", fmt.Sprintf("TO2 fails on this schedule: %s", firstLine(err.Error()))})
+					} else {
+						want := append([]byte("secret="), payloadFor(guidBefore(p))...)
+						if len(p.rec.got) != 1 || !bytes.Equal(p.rec.got[0], want) {
+							v = append(v, [2]string{"pipeline-delivery", fmt.Sprintf("device module received %q, owner module sent %q", p.rec.got, want)})
+						}
+						if !sh.done && !bytes.Equal(p.echo, payloadFor(guidBefore(p))) {
+							v = append(v, [2]string{"pipeline-delivery", fmt.Sprintf("owner module received %q back, want %q", p.echo, payloadFor(guidBefore(p)))})
+						}
+					}
+				}
+				if clean && err == nil && len(v) == 0 {
+					if e := wd.resale(p); e != nil {
+						fatal("resale: %v", e)
+					}
+				} else {
+					wd = nil
+				}
+				if wd != nil {
+					p.rec.got, p.echo = nil, nil
+				}
+				return vres, v, fmt.Sprintf("err=%v", err != nil)
+			}})
+	}
 	return out
 }
 
@@ -693,6 +766,15 @@ func firstLine(s string) string {
 	return s
 }
 
+// scenarioBudget: wall-clock budget of one scenario in one shard; reaching it is reported as a cap, never as a pass
+// of the whole space.
+func scenarioBudget(thorough bool) time.Duration {
+	if thorough {
+		return 40 * time.Minute
+	}
+	return 8 * time.Minute
+}
+
 func schedulesShard(shard, n int, thorough bool) *schedshard.Report {
 	rep := &schedshard.Report{}
 	for si, sc := range scenarios(thorough) {
@@ -707,6 +789,8 @@ func schedulesShard(shard, n int, thorough bool) *schedshard.Report {
 		// the body only runs the execution; what it found is committed by visit, which is called exactly once per
 		// execution over all shards (shared tree nodes are re-executed by every shard but owned by one)
 		var commit func()
+		v0 := len(rep.Violations)
+		explore.Stop = func() bool { return len(rep.Violations)-v0 >= 3 || time.Since(t0) > scenarioBudget(thorough) }
 		x := explore.ExploreShard(sc.Bound, shard, n, func(c *explore.Ctx) {
 			choose := c.Choose
 			if sc.Delay {
@@ -735,6 +819,9 @@ func schedulesShard(shard, n int, thorough bool) *schedshard.Report {
 			}
 		}, func(*explore.Ctx) { commit() })
 		st.Executions, st.MaxDepth = x.Executions, x.MaxDepth
+		if x.Stopped && len(rep.Violations)-v0 < 3 {
+			rep.Capped = append(rep.Capped, fmt.Sprintf("scenario %q: shard %d stopped at its wall-clock budget after %d executions", sc.Name, shard, x.Executions))
+		}
 		if os.Getenv("VERIF_PROGRESS") != "" {
 			fmt.Fprintf(os.Stderr, "shard %d: %s: %d executions, depth %d, %.1fs, violations so far %d\n", shard, sc.Name, x.Executions, x.MaxDepth, time.Since(t0).Seconds(), len(rep.Violations))
 		}
@@ -861,6 +948,9 @@ func main() {
 	r.Evaluations.Add(rep.Evals)
 	for _, v := range rep.Violations {
 		r.Violation(v.Key, v.What, v.Replay)
+	}
+	for _, c := range rep.Capped {
+		r.Capped(c)
 	}
 	for _, sc := range rep.Scenarios {
 		r.States.Add(int64(sc.Executions))
